@@ -27,6 +27,9 @@ type c32Block struct {
 	touchedAt  time.Time // last modification of the partial upload's files
 	firstTouch time.Time // modification time of its oldest object (a slow or resumed upload)
 	newestSamp int64     // ms
+	// an operator removes the deletion mark after the compactor's unmarkAfter-th iteration (0 = never) and
+	// marks the block again after the remarkAfter-th (0 = never); `thanos tools bucket mark [--remove]`
+	unmarkAfter, remarkAfter int
 }
 
 // runC32: retention marks a block only when its newest sample is older than the retention of its
@@ -70,6 +73,12 @@ func runC32(x *simkit.Exec) {
 		switch x.Draw("state", 4) {
 		case 1: // carries a deletion mark of an age around the delete delay
 			b.markedAt = start.Add(-cfg.deleteDelay - offsets[x.Draw("markOffset", len(offsets))]).Unix()
+			if x.Bool("operatorUnmarks", 1, 2) {
+				b.unmarkAfter = x.Range("unmarkAfter", 1, iterations+1)
+				if x.Bool("operatorRemarks", 1, 2) {
+					b.remarkAfter = b.unmarkAfter + x.Draw("remarkLater", 3)
+				}
+			}
 		case 2: // partial upload, last touched around the abort threshold
 			b.partial = true
 			b.touchedAt = start.Add(-compact.PartialUploadThresholdAge - offsets[x.Draw("touchOffset", len(offsets))])
@@ -127,6 +136,7 @@ func runC32(x *simkit.Exec) {
 		h := bkt.Handle("compactor")
 		// mark times as the system records them (whole seconds), learned from the marks themselves
 		markTime := map[string]int64{}
+		unmarked := map[string]bool{} // the operator removed the block's deletion mark (and has not marked it again)
 		for _, b := range blocks {
 			if b.markedAt != 0 {
 				markTime[b.spec.ID.String()] = b.markedAt
@@ -182,7 +192,12 @@ func runC32(x *simkit.Exec) {
 					}
 					s.Probe("c32.partial_removed")
 				} else {
-					s.Violate("only-marked-or-partial-blocks-deleted", "unmarked-complete-block-deleted", "%s of block %s deleted; the block is complete and carries no deletion mark", rel, bkt.Canon(id))
+					sig, how := "unmarked-complete-block-deleted", ""
+					if unmarked[id] {
+						sig += ":mark-removed-by-operator"
+						how = " (an operator removed its mark before this iteration began)"
+					}
+					s.Violate("only-marked-or-partial-blocks-deleted", sig, "%s of block %s deleted; the block is complete and carries no deletion mark%s", rel, bkt.Canon(id), how)
 				}
 			}
 		}
@@ -192,12 +207,47 @@ func runC32(x *simkit.Exec) {
 				x.Troublef("compactor: %v", err)
 				return
 			}
+			// the operator acts between two iterations (never while one is running: a mark removed after the
+			// cleaner has read it is a race the property does not speak about)
+			oh := bkt.Handle("operator")
+			done := 0
+			operator := func() {
+				done++
+				for _, b := range blocks {
+					id := b.spec.ID.String()
+					name := id + "/" + metadata.DeletionMarkFilename
+					if _, there := bkt.Inner.Objects()[id+"/meta.json"]; !there {
+						continue // already deleted
+					}
+					if b.unmarkAfter == done {
+						if err := oh.Delete(ctx, name); err == nil {
+							delete(markTime, id)
+							unmarked[id] = true
+							s.Probe("c32.operator_removed_deletion_mark")
+							s.Note("operator removes the deletion mark of %s", bkt.Canon(id))
+						}
+					}
+					if b.remarkAfter == done {
+						if _, marked := bkt.Inner.Objects()[name]; !marked {
+							now := time.Now().Unix()
+							mark, _ := json.Marshal(metadata.DeletionMark{ID: b.spec.ID, DeletionTime: now, Version: metadata.DeletionMarkVersion1})
+							if err := oh.Upload(ctx, name, strings.NewReader(string(mark))); err == nil {
+								markTime[id] = now
+								unmarked[id] = false
+								s.Probe("c32.operator_marked_again")
+								s.Note("operator marks %s again at %d", bkt.Canon(id), now)
+							}
+						}
+					}
+				}
+			}
 			for it := 0; it < iterations; it++ {
 				if err := node.iteration(ctx); err != nil {
 					x.Troublef("iteration %d: %v", it, err)
 					return
 				}
 				time.Sleep(gap)
+				operator()
 			}
 			// far from the boundaries the system must act (keeps the oracle from being vacuous)
 			time.Sleep(cfg.deleteDelay + compact.PartialUploadThresholdAge + 40*time.Hour)
@@ -206,7 +256,8 @@ func runC32(x *simkit.Exec) {
 					x.Troublef("late iteration: %v", err)
 					return
 				}
-				time.Sleep(cfg.deleteDelay + time.Hour)
+				time.Sleep(cfg.deleteDelay/2 + time.Hour)
+				operator()
 			}
 			objs := bkt.Inner.Objects()
 			for _, b := range blocks {
@@ -218,7 +269,7 @@ func runC32(x *simkit.Exec) {
 					}
 				}
 				ret := cfg.retention[compact.ResolutionLevel(b.spec.Resolution)]
-				expectGone := b.partial || b.markedAt != 0 || ret != 0
+				expectGone := b.partial || (b.markedAt != 0 && !unmarked[id]) || ret != 0
 				// liveness is not part of the property: only measured, so that an oracle that never
 				// sees a deletion shows up in the evidence
 				if expectGone && left > 0 {
@@ -227,7 +278,11 @@ func runC32(x *simkit.Exec) {
 					s.Probe("c32.expired_block_removed_by_end")
 				}
 				if !expectGone && left == 0 {
-					s.Violate("only-marked-or-partial-blocks-deleted", "retained-block-gone", "block %s with retention off vanished", bkt.Canon(id))
+					sig := "retained-block-gone"
+					if unmarked[id] {
+						sig += ":mark-removed-by-operator"
+					}
+					s.Violate("only-marked-or-partial-blocks-deleted", sig, "block %s with retention off vanished", bkt.Canon(id))
 				}
 			}
 		})
